@@ -40,6 +40,8 @@ def shape(t):
         return shape(t[3])
     if k in ("mulc", "scale"):
         return shape(t[2])
+    if k in ("real", "imag", "conj", "lsub", "lsubf"):
+        return shape(t[1])
     if k == "ptw":
         return shape(t[3])
     if k in ("mul", "add"):
@@ -98,6 +100,12 @@ class Impl:
             return self.op(t[2]).scale(t[1])
         if k == "ptw":
             return self.op(t[3]).ptw(t[1], *t[2])
+        if k == "real":
+            return self.op(t[1]).real              # Realizer @ op
+        if k == "imag":
+            return self.op(t[1]).imag              # Imaginizer @ op
+        if k == "conj":
+            return self.op(t[1]).conjugate()       # ConjugationOperator @ op
         if k == "mul":
             return self.op(t[1]) * self.op(t[2])
         if k == "add":
@@ -141,6 +149,12 @@ class Impl:
             return self.lin(t[2], l0) * t[1]
         if k == "ptw":
             return self.lin(t[3], l0).ptw(t[1], *t[2])
+        if k == "real":
+            return self.lin(t[1], l0).real         # Linearization.real
+        if k == "imag":
+            return self.lin(t[1], l0).imag         # Linearization.imag
+        if k == "conj":
+            return self.lin(t[1], l0).conjugate()  # Linearization.conjugate
         if k == "mul":
             return self.lin(t[1], l0) * self.lin(t[2], l0)
         if k == "add":
@@ -625,6 +639,18 @@ HOLO_PTW = [("sin", [], lambda v: abs(v) < 3), ("cos", [], lambda v: abs(v) < 3)
             ("log1p", [], lambda v: v.real > -0.6 and abs(v) < 30), ("exponentiate", [2.0], lambda v: abs(v) < 4)]
 
 
+# real / imaginary part / conjugate of complex intermediates (Linearization.real/.imag/.conjugate and the
+# Realizer/Imaginizer/ConjugationOperator route)
+COMPLEX_PROBES = [
+    ("imag", ("mul", ("var", 0), ("var", 0))),
+    ("real", ("mul", ("var", 0), ("var", 1))),
+    ("conj", ("ptw", "exp", [], ("var", 0))),
+    ("mul", ("imag", ("ptw", "sin", [], ("var", 0))), ("real", ("var", 1))),
+    ("sum", ("mul", ("imag", ("mul", ("var", 0), ("var", 1))), ("conj", ("var", 0)))),
+    ("add", ("imag", ("ptw", "tanh", [], ("mulc", [0.7 - 0.2j, 0.3 + 0.5j], ("var", 1)))), ("real", ("ptw", "exp", [], ("var", 0)))),
+]
+
+
 class FloatGen:
     """Random float trees valid (with margins) at a given point; validity is checked on the implementation's
     own plain evaluation of the sub-operators."""
@@ -662,6 +688,9 @@ class FloatGen:
             if depth <= 0 or rng.random() < 0.12:
                 return ("var", int(rng.integers(0, K)))
             c = rng.integers(3, 10)
+        if self.cplx and rng.random() < 0.25:
+            # real / imaginary part / conjugate of a complex intermediate (R-linear, not holomorphic)
+            return (["real", "imag", "conj"][int(rng.integers(0, 3))], self.gen(depth - 1, shp))
         if c == 3:
             return ("addc", int(rng.integers(0, 2)), [self.rnd() for _ in range(m)], self.gen(depth - 1, shp))
         if c == 4:
@@ -730,11 +759,24 @@ def fd_check(impl, t, x, dirs, wm=False, om=True, h=2e-3, tol=2e-5):
             return ("jacobian_fd", "J.d = %r but the extrapolated central difference is %r" % (jv.tolist(), fd.tolist()))
         # adjointness: <y, J d> = <J^dagger y, d>
         y = np.array([(0.37 + 0.11 * i) * (-1) ** i for i in range(jv.size)], dtype=impl.dtype)
-        if impl.dtype == np.complex128:
+        rlin = bool(kinds(t) & {"real", "imag", "conj"})
+        if impl.dtype == np.complex128 and not rlin:
             y = y * (1 + 0.5j)
+        if rlin and not np.iscomplexobj(jv):
+            y = y.real.astype(np.float64)
         yf = ift.Field.from_raw(lin.jac.target, y.reshape(lin.jac.target.shape))
         lhs = np.vdot(y, jv)
-        rhs = lin.jac.adjoint_times(yf).s_vdot(dm)
+        try:
+            rhs = lin.jac.adjoint_times(yf).s_vdot(dm)
+        except ValueError:
+            if not rlin:
+                raise
+            # Imaginizer.adjoint_times accepts real cotangents only (library limitation): when a complex
+            # cotangent reaches it, the adjoint of this tree is not available; nothing to compare
+            continue
+        if rlin:
+            # R-linear Jacobians (real/imag/conjugate): the adjoint is the transpose for the REAL inner product
+            lhs, rhs = lhs.real, rhs.real
         if abs(lhs - rhs) > 1e-9 * (1 + abs(lhs) + abs(rhs)):
             return ("adjoint", "<y, J d> = %r but <J^dagger y, d> = %r" % (lhs, rhs))
     if is_energy:
@@ -993,6 +1035,22 @@ class C03(C.Check):
                                         f[1], dict(inp, om=om, wm=wm))
             if len(res.failing) >= 3:
                 break
+        # 2b. fixed probes: real / imaginary part / conjugate taken on complex Linearizations (both routes)
+        for pi, t in enumerate(COMPLEX_PROBES):
+            n, K = 2, 2
+            x = [[complex(rng.uniform(-1, 1), rng.uniform(-1, 1)) for _ in range(n)] for _ in range(K)]
+            dirs = [[[complex(rng.normal(), rng.normal()) for _ in range(n)] for _ in range(K)] for _ in range(2)]
+            for om in (True, False):
+                inp = {"kind": "direct", "what": "tree", "tree": enc(t), "x": enc(x), "n": n, "K": K, "cplx": True,
+                       "dirs": enc(dirs), "om": om, "wm": False}
+                nev += 1
+                try:
+                    f = run_direct(inp)
+                except Exception as e:
+                    f = ("raised", "%s: %s" % (type(e).__name__, str(e)[:300]))
+                if f:
+                    res.add_failing({"fn": "Operator.__call__(Linearization)", "check": f[0], "route": "operator" if om else "linearization",
+                                     "complex": True}, f[1], inp)
         # 3. random float trees over the whole table, real and complex, and energies
         ntrees = (25 if ctx.quick else 250) * budget
         for it in range(ntrees):
